@@ -62,6 +62,10 @@ EXPLANATION += (
     'from below).'
 )
 
+EXPLANATION += (
+    ' Round 5: the declared normalization and the other settings are forwarded at every call (R-FWD/parameter-forwarded).'
+)
+
 RULE_TEXT = (
     "one obligation per dominance / typestate / provenance relation named "
     "above")
@@ -91,6 +95,10 @@ def check(ctx):
     # tile both axes exactly (shared with C05 / C16)
     from .C05 import check_tiles
     check_tiles(ctx, ('validation.utils',), floor=8)
+    # settings this property depends on are handed down every call
+    # chain, never left to a callee's default (sa/rules/forwarding.py)
+    from ..rules.forwarding import check_forwarding
+    check_forwarding(ctx, {'normalization'})
 
 
 def check_negative_rejected(ctx):
